@@ -99,6 +99,7 @@ func c12R1(c *Ctx) {
 		}
 	}
 	nLabels := 0
+	carried := map[*ssa.Store]bool{}
 	for _, fn := range P.FuncsIn(markupPkgs...) {
 		fname := FuncName(fn)
 		eachInstr(fn, func(_ *ssa.BasicBlock, _ int, in ssa.Instruction) {
@@ -115,6 +116,18 @@ func c12R1(c *Ctx) {
 				if b, ok := lc.Call.Value.(*ssa.Builtin); ok && b.Name() == "len" {
 					isLen = true
 				}
+			}
+			if f := loadedField(num); !isLen && f != nil && f.Pkg() != nil && isServitorPath(f.Pkg().Path()) {
+				// (d) the number is carried in a field of a record that was filled where the
+				// link was appended and is printed from there (a parser that builds blocks,
+				// a renderer that prints them)
+				ok, why := carriedLabel(P, fn, call, num, f, appends, mayAppend, carried)
+				if ok {
+					c.ok(fname+"/label", pos, fname, "label read from a record field that is only ever filled with len(list) right after the link's own append")
+				} else {
+					c.bad(fname+"/label", pos, fname, why)
+				}
+				return
 			}
 			if !isLen {
 				// (c) label = len(list) + 1 taken before the append of exactly one
@@ -370,6 +383,22 @@ func c12R2(c *Ctx) {
 		})
 	}
 	// text links: lookup index = input - 1
+	pairedMarkup := map[ssa.Value]bool{}
+	defer func() {
+		// every text that is rendered with numbers hands its links to a lookup: no
+		// GetMarkup call besides the paired ones (a second text whose link list is
+		// dropped shows numbers, from 1 again, that select another text's targets)
+		gm := P.Method("servitor/object", "Object", "GetMarkup")
+		for _, e := range P.Callers(gm) {
+			if e.Site == nil || e.Caller.Func.Synthetic != "" {
+				continue
+			}
+			if v, ok := e.Site.(ssa.Value); ok && pairedMarkup[v] {
+				continue
+			}
+			c.bad(FuncName(e.Caller.Func)+"/markup-without-lookup", P.InstrPos(e.Site), FuncName(e.Caller.Func), "a text is turned into markup whose link list is not the one a SelectLink looks numbers up in: the numbers it shows (counted from 1) open the targets of another text, or nothing")
+		}
+	}()
 	for _, tn := range []string{"Post", "Actor"} {
 		sel := P.Method("servitor/pub", tn, "SelectLink")
 		selIn := lin(sel.Params[1])
@@ -425,6 +454,17 @@ func c12R2(c *Ctx) {
 		}
 		c.check(okPair, FuncName(ctor)+"/text-links-paired", P.Pos(ctor.Pos()), FuncName(ctor),
 			textName+" and "+listName+" are results #0/#1 of one GetMarkup call", textName+" and "+listName+" do not come from the same GetMarkup call: numbers shown in the text select targets of another text")
+		if okPair {
+			pairedMarkup[textCall] = true
+		}
+		// the list that is looked up in is the list that was numbered: nothing else is stored into it
+		if lf := P.FieldOpt("servitor/pub", tn, listName); lf != nil {
+			for _, st := range storesToField(P, lf) {
+				ex, isEx := st.Val.(*ssa.Extract)
+				c.check(isEx && ex.Index == 1 && ex.Tuple == linksCall, FuncName(st.Parent())+"/links-rewritten:"+listName, P.InstrPos(st), FuncName(st.Parent()),
+					listName+" is the list the renderer numbered", listName+" is replaced by another list after the renderer has numbered its links (filtered, resolved, reordered): the numbers shown no longer select the targets they stand next to")
+			}
+		}
 	}
 	// Activity delegates both to the same target
 	act := P.Method("servitor/pub", "Activity", "SelectLink")
@@ -547,4 +587,166 @@ func c12R5(c *Ctx) {
 		c.check(problem == "", FuncName(fn)+"/append-width-independent", P.InstrPos(a.call), FuncName(fn),
 			"whether this target is numbered does not depend on the width", "the set of numbered targets changes with the width, but the list used by SelectLink is the one computed at construction: "+problem+" — at such widths every later number opens the wrong target")
 	}
+}
+
+// lenAfterOwnAppend: num is len(list) read right after an append to that list
+// (result of the append itself, or a load of the cell it was stored to, with
+// nothing in between that can append). The append it belongs to.
+func lenAfterOwnAppend(P *Program, fn *ssa.Function, num ssa.Value, appends []*appendStore, mayAppend map[*ssa.Function]bool) (*appendStore, string) {
+	lc, ok := unwrapLoad(num).(*ssa.Call)
+	if !ok {
+		return nil, "the number is not len(link list)"
+	}
+	if b, ok := lc.Call.Value.(*ssa.Builtin); !ok || b.Name() != "len" {
+		return nil, "the number is not len(link list)"
+	}
+	list := lc.Call.Args[0]
+	for _, a := range appends {
+		if unwrapLoad(list) == ssa.Value(a.call) {
+			return a, ""
+		}
+	}
+	u, ok := list.(*ssa.UnOp)
+	if !ok || u.Op != token.MUL {
+		return nil, "the length is not that of the link list written by an append in this function"
+	}
+	cellPath := path(u.X)
+	var best *appendStore
+	for _, a := range appends {
+		if a.fn == fn && a.store != nil && a.cell == cellPath && dominatesInstr(a.store, u) {
+			if best == nil || dominatesInstr(best.store, a.store) {
+				best = a
+			}
+		}
+	}
+	if best == nil {
+		return nil, "no append to the list dominates the length that is recorded: a number without its own target"
+	}
+	for _, mid := range instrsBetween(best.store, u) {
+		if ci, ok := mid.(ssa.CallInstruction); ok {
+			for _, callee := range P.Callees(ci) {
+				if mayAppend[callee] {
+					return nil, "the recorded number is len(list) read after " + describeInstr(P, mid) + ", which can append further targets"
+				}
+			}
+		}
+		if st, ok := mid.(*ssa.Store); ok && path(st.Addr) == cellPath {
+			return nil, "the recorded number is len(list) read after another append"
+		}
+	}
+	return best, ""
+}
+
+// carriedLabel: the label printed at `call` is field f of a record. Every
+// store into f in the module is looked at together with the store into the
+// record's discriminating field g — the field the print site tests
+// (`switch b.kind { case linkBlock: … b.number`) — made on the same record in
+// the same block: wherever the record can be of the printed kind, what goes
+// into f is len(list) right after the link's own append. Where both values are
+// phis of one join (the returns of an inlined classifier), they are taken edge
+// by edge. Each such store counts as the one label of its append.
+func carriedLabel(P *Program, fn *ssa.Function, call *ssa.Call, num ssa.Value, f *types.Var, appends []*appendStore, mayAppend map[*ssa.Function]bool, counted map[*ssa.Store]bool) (bool, string) {
+	// the guard of the print site: <field g of the same struct> == K
+	var g *types.Var
+	var K *ssa.Const
+	for _, fact := range factsOf(fn).At(call.Block()) {
+		cmp, ok := fact.Cmp()
+		if !ok || cmp.Op != token.EQL {
+			continue
+		}
+		for _, side := range [][2]ssa.Value{{cmp.X, cmp.Y}, {cmp.Y, cmp.X}} {
+			k, isC := side[1].(*ssa.Const)
+			gf := loadedField(side[0])
+			if isC && gf != nil && gf != f && sameStruct(gf, f) {
+				g, K = gf, k
+			}
+		}
+	}
+	stores := storesToField(P, f)
+	if len(stores) == 0 {
+		return false, "the number printed next to a link is read from a field that is never filled"
+	}
+	for _, st := range stores {
+		sfn := st.Parent()
+		fa := st.Addr.(*ssa.FieldAddr)
+		// the kind stored into the same record in the same block
+		var kindVal ssa.Value
+		if g != nil {
+			for _, in := range st.Block().Instrs {
+				if st2, ok := in.(*ssa.Store); ok {
+					if fa2, ok := st2.Addr.(*ssa.FieldAddr); ok && fieldOf(fa2) == g && fa2.X == fa.X {
+						kindVal = st2.Val
+					}
+				}
+			}
+			if kindVal == nil {
+				return false, "a record's number is filled at " + P.InstrPos(st) + " without its kind being set alongside: which records are printed with that number cannot be established"
+			}
+		}
+		type pair struct{ kind, num ssa.Value }
+		var pairs []pair
+		nph, nIsPhi := st.Val.(*ssa.Phi)
+		kph, kIsPhi := kindVal.(*ssa.Phi)
+		switch {
+		case nIsPhi && kIsPhi && nph.Block() == kph.Block():
+			for i := range nph.Edges {
+				pairs = append(pairs, pair{kph.Edges[i], nph.Edges[i]})
+			}
+		case nIsPhi:
+			for _, e := range nph.Edges {
+				pairs = append(pairs, pair{kindVal, e})
+			}
+		case kIsPhi:
+			for _, e := range kph.Edges {
+				pairs = append(pairs, pair{e, st.Val})
+			}
+		default:
+			pairs = append(pairs, pair{kindVal, st.Val})
+		}
+		for _, pr := range pairs {
+			if K != nil && pr.kind != nil {
+				if kc, isC := pr.kind.(*ssa.Const); isC && kc.Value != nil && K.Value != nil && kc.Value.ExactString() != K.Value.ExactString() {
+					continue // a record of another kind: its number is never printed
+				}
+			}
+			a, why := lenAfterOwnAppend(P, sfn, pr.num, appends, mayAppend)
+			if a == nil {
+				return false, "the number printed next to a link is carried in a record field, and what is put there at " + P.InstrPos(st) + " does not qualify: " + why
+			}
+			if !counted[st] {
+				a.labels++
+			}
+		}
+		counted[st] = true
+	}
+	return true, ""
+}
+
+func sameStruct(a, b *types.Var) bool {
+	if a.Pkg() != b.Pkg() {
+		return false
+	}
+	for _, n := range a.Pkg().Scope().Names() {
+		tn, ok := a.Pkg().Scope().Lookup(n).(*types.TypeName)
+		if !ok {
+			continue
+		}
+		st, ok := tn.Type().Underlying().(*types.Struct)
+		if !ok {
+			continue
+		}
+		hasA, hasB := false, false
+		for i := 0; i < st.NumFields(); i++ {
+			if st.Field(i) == a {
+				hasA = true
+			}
+			if st.Field(i) == b {
+				hasB = true
+			}
+		}
+		if hasA || hasB {
+			return hasA && hasB
+		}
+	}
+	return false
 }
